@@ -14,7 +14,7 @@ PROPERTY = "C04"
 RULE = ("programs: Hypothesis builds well-typed straight-line programs (1..6 operator nodes; 1..3 named inputs of kind group / "
         "algebra / 3-vector / homogeneous 4-vector; every listed operator reachable: Exp, Log, Inv, @, Act3, Act4, Adj, AdjT, Retr, +, "
         "matrix(), Jinvp, with Euclidean glue: fixed random linear maps, algebra sums, scalings) over one group family, evaluated at a "
-        "drawn point class {generic, identity/zero, tiny (each block independently 0 / eps / sqrt(eps) / 1e-20 / 1e-7..1e-3 / O(1)), large rotation}.  Oracle: 4th-order "
+        "(each input independently a CONSTANT - no gradient requested - with probability 1/4), drawn point class {generic, identity/zero, tiny (each block independently 0 / eps / sqrt(eps) / 1e-20 / 1e-7..1e-3 / O(1)), large rotation}.  Oracle: 4th-order "
         "Richardson central differences (h=2^-9, 2^-10) of the SAME forward program in float64, where a group input X is perturbed as "
         "Exp_ref(+-h e_i) o X with the harness's own float64 exponential and quaternion product; all perturbations run as one batch.  "
         "Routes (drawn per case): torch.autograd.grad with basis cotangents, .backward() reading .grad, "
@@ -102,7 +102,7 @@ def make_inputs(case, dtype, batch=None, requires_grad=False):
             v = pp.LieTensor(t, ltype=tu.LT[FAM[glt]])
         else:
             v = t
-        if requires_grad:
+        if requires_grad and not inp.get("const"):
             v.requires_grad_(True)
         vals.append(v)
     return vals
@@ -123,6 +123,8 @@ def numeric_jacobian(case, point):
     rows = []      # (input k, comp i, h index, sign)
     batch = [[] for _ in point]
     for k, x in enumerate(point):
+        if case["inputs"][k].get("const"):
+            continue
         for i in range(tangent_dim(case, k)):
             for hi, h in enumerate(hs):
                 for sg in (1.0, -1.0):
@@ -146,6 +148,8 @@ def numeric_jacobian(case, point):
     for r, (k, i, hi, sg) in enumerate(rows):
         D[(k, i, hi, sg)] = out[r]
     for k in range(len(point)):
+        if case["inputs"][k].get("const"):
+            continue
         for i in range(tangent_dim(case, k)):
             d0 = (D[(k, i, 0, 1.0)] - D[(k, i, 0, -1.0)]) / (2 * hs[0])
             d1 = (D[(k, i, 1, 1.0)] - D[(k, i, 1, -1.0)]) / (2 * hs[1])
@@ -157,12 +161,19 @@ class ProgModule(nn.Module):
     def __init__(self, case, vals):
         super().__init__()
         self.case = case
-        self.ps = nn.ParameterList([pp.Parameter(v.detach().clone()) if isinstance(v, pp.LieTensor) else nn.Parameter(v.detach().clone())
-                                    for v in vals])
+        self.consts = {k: v.detach().clone() for k, v in enumerate(vals) if case["inputs"][k].get("const")}
+        self.idx = [k for k in range(len(vals)) if k not in self.consts]
+        self.ps = nn.ParameterList([pp.Parameter(vals[k].detach().clone()) if isinstance(vals[k], pp.LieTensor) else nn.Parameter(vals[k].detach().clone())
+                                    for k in self.idx])
         self.dtype = vals[0].dtype
 
     def forward(self):
-        return evalprog(self.case, list(self.ps), self.dtype)[0]
+        allv = [None] * (len(self.idx) + len(self.consts))
+        for k, v in self.consts.items():
+            allv[k] = v
+        for k, p_ in zip(self.idx, self.ps):
+            allv[k] = p_
+        return evalprog(self.case, allv, self.dtype)[0]
 
 
 def autograd_jacobian(case, point, dtype, route, rec):
@@ -170,6 +181,7 @@ def autograd_jacobian(case, point, dtype, route, rec):
     td = tu.TD[dtype]
     pt = [np.array(gen.rnd_list(p.tolist(), dtype)) for p in point]
     batch = [p[None] for p in pt]
+    diff = [k for k, i in enumerate(case["inputs"]) if not i.get("const")]
     if route in ("grad", "backward"):
         vals = make_inputs(case, td, batch=batch, requires_grad=True)
         out = evalprog(case, vals, td)[0]
@@ -178,9 +190,9 @@ def autograd_jacobian(case, point, dtype, route, rec):
         if route == "grad":
             for r in range(m):
                 c = torch.zeros(m, dtype=td); c[r] = 1.0
-                gs = torch.autograd.grad(out, vals, grad_outputs=c, retain_graph=True, allow_unused=True)
-                for k, g in enumerate(gs):
-                    if g is not None:
+                gs = torch.autograd.grad(out, [vals[k] for k in diff], grad_outputs=c, retain_graph=True, allow_unused=True)
+                for k, g in zip(diff, gs):
+                    if g is not None:           # an input the output does not depend on gets None: its Jacobian is zero
                         Js[k][r] = tu.npy(g)[0]
             return Js, None
         rs = np.random.RandomState(case["cseed"] + 1)
@@ -192,22 +204,28 @@ def autograd_jacobian(case, point, dtype, route, rec):
     if route.startswith("modjac"):
         model = ProgModule(case, vals)
         J = pp.optim.functional.modjac(model, input=None, flatten=(route == "modjac_flat"), vectorize=(route == "modjac_vec"))
+        full = [None] * len(vals)
         if route == "modjac_flat":
             Jn = tu.npy(J)
-            outJ, col = [], 0
-            for v in vals:
-                outJ.append(Jn[:, col:col + v.shape[-1]]); col += v.shape[-1]
-            return outJ, None
+            col = 0
+            for k in diff:
+                full[k] = Jn[:, col:col + vals[k].shape[-1]]; col += vals[k].shape[-1]
+            return full, None
         J = J if isinstance(J, tuple) else (J,)
-        return [tu.npy(j).reshape(j.shape[0], -1) for j in J], None
+        for k, j in zip(diff, J):
+            full[k] = tu.npy(j).reshape(j.shape[0], -1)
+        return full, None
     f = lambda *xs: evalprog(case, list(xs), td)[0]
-    argn = tuple(range(len(vals)))
+    argn = tuple(diff)
     if route == "pp_jacrev":
         J = pp.func.jacrev(f, argnums=argn)(*vals)
     else:
         with pp.retain_ltype():
             J = torch.func.jacrev(f, argnums=argn)(*vals)
-    return [tu.npy(j).reshape(j.shape[0], -1) for j in J], None
+    full = [None] * len(vals)
+    for k, j in zip(diff, J):
+        full[k] = tu.npy(j).reshape(j.shape[0], -1)
+    return full, None
 
 
 def _val_strategy(kind, glt, cls, dtype):
@@ -265,7 +283,9 @@ def program(draw, tier, single=False):
     kinds = [draw(st.sampled_from(("G", "G", "A", "A", "P3", "P4"))) for _ in range(nin)]
     if not any(k in ("G", "A") for k in kinds):
         kinds[0] = draw(st.sampled_from(("G", "A")))
-    inputs = [{"kind": k, "val": draw(_val_strategy(k, glt, cls, dtype))} for k in kinds]
+    inputs = [{"kind": k, "val": draw(_val_strategy(k, glt, cls, dtype)), "const": draw(st.integers(0, 3)) == 0} for k in kinds]
+    if all(i["const"] for i in inputs):          # at least one differentiable input
+        inputs[draw(st.integers(0, len(inputs) - 1))]["const"] = False
     ts = list(kinds)
     nodes = []
     nn_ = 1 if single else draw(st.integers(1, 6))
@@ -310,6 +330,9 @@ def _inspect(case):
                     return False, "sim3_ad>0.2"
             if op == "Exp" and glt == "Sim3":
                 if np.linalg.norm(R.ad(alt, tu.npy(a[0])[0]), 2) > 0.2:
+                    return False, "sim3_ad>0.2"
+            if op in ("Add", "Retr") and glt == "Sim3":      # both retract through sim3 Exp (documented truncation)
+                if np.linalg.norm(R.ad(alt, tu.npy(a[1])[0]), 2) > 0.2:
                     return False, "sim3_ad>0.2"
             r = _apply(op, a, glt, C)
             if not torch.isfinite(r if not isinstance(r, pp.LieTensor) else r.tensor()).all():
@@ -365,7 +388,7 @@ def check_program(case, rec, tol64=1e-6):
     ts = _types(case)
     rec.label(glt, dtype, "cls:" + case["cls"], "route:" + route, *["op:" + o for o in ops])
     if len(lieops) >= 2 and "G" in ts:
-        rec.nt((tuple(sorted(nd["op"] for nd in case["nodes"])), glt, tuple(i["kind"] for i in case["inputs"]), case["cls"], route, dtype, case["sink"]))
+        rec.nt((tuple(sorted(nd["op"] for nd in case["nodes"])), glt, tuple(i["kind"] + ("c" if i.get("const") else "") for i in case["inputs"]), case["cls"], route, dtype, case["sink"]))
     try:
         with rec.sut("autograd(%s)" % route, allow=(RuntimeError, NotImplementedError, AssertionError, TypeError, ValueError) if route in ("pp_jacrev", "torch_jacrev", "modjac_vec") else ()):
             Ja, cot = autograd_jacobian(case, point, dtype, route, rec)
@@ -373,7 +396,11 @@ def check_program(case, rec, tol64=1e-6):
         rec.label("route_raised:%s:%s" % (route, type(e).__name__))
         return
     tol = tol64 if dtype == "float64" else 16 * math.sqrt(tu.EPS["float32"])
+    if any(i.get("const") for i in case["inputs"]):
+        rec.label("has_const_input")
     for k, inp in enumerate(case["inputs"]):
+        if inp.get("const"):
+            continue
         td_ = tangent_dim(case, k)
         ja = np.asarray(Ja[k], dtype=np.float64)
         if cot is not None:            # backward route: ja is c^T J of shape (full_dim,)
